@@ -10,21 +10,23 @@ Representation decisions (see also the report in checklib/props/C14.py):
   covers the *valid UTF-8* strings.  On those, Go's byte-wise `strings.Split/Join/HasPrefix`,
   byte-wise `sort`, and the rune-wise `regexp` engine agree with the corresponding operations
   on scalar sequences (UTF-8 is prefix-free and order preserving).  Strings that are not valid
-  UTF-8 are outside the model; for the *pattern/reference* they make `regexp.MustCompile`
-  panic (`invalid UTF-8`), which the `match-baddelim` stream records.
+  UTF-8 are outside the model; for the *pattern/reference* they make `regexp.Compile` fail
+  (`invalid UTF-8`) and `match` answer "no match", which the `match-baddelim` stream compares.
 * The hierarchy delimiter is one character `d : Char` (IMAP: a single QUOTED-CHAR).  gluon's
   option is a Go string; the empty and the multi-character delimiter are not modelled.
-* `match` builds the text  `^` ++ QuoteMeta(canon(ref+pattern)) ++ (`$` unless pattern ends
-  in `%`), then replaces `\*` by `.*`, then `%` by `[^<del>]*`, and compiles it.  QuoteMeta
-  escapes every one of ``\.+*?()|[]{}^$`` with a backslash and nothing else, so in its output
-  backslashes occur only as the first byte of a two-byte escape and the text `\*` occurs
-  exactly where the input had `*`; `%` is not escaped.  Hence the compiled expression is the
-  item sequence below: `*` ↦ `.*` (`star`), `%` ↦ `[^d]*` (`pct`), any other character ↦ that
-  literal character.  The only way the text fails to parse this way is the class `[^d]`:
-  for `d = '\'` it reads `[^\]*…` — "missing closing ]" — and `MustCompile` panics
-  (`Outcome.panic`); `]`, `^`, `-`, `[` are literal in first position of a Go character
-  class; `*` and `%` as delimiters just make every delimiter of the pattern a wildcard.
-* Go's `.` does not match `\n` (no `s` flag): `star` skips any character except newline.
+* `match` builds the text  `(?s)^` ++ QuoteMeta(canon(ref+pattern)) ++ (`$` unless pattern ends
+  in `%`), then replaces `\*` by `.*`, then `%` by `[^` ++ QuoteMeta(del) ++ `]*`, and compiles it
+  (`regexp.Compile`; a compile error means "no match").  QuoteMeta escapes every one of
+  ``\.+*?()|[]{}^$`` with a backslash and nothing else, so in its output backslashes occur only
+  as the first byte of a two-byte escape and the text `\*` occurs exactly where the input had
+  `*`; `%` is not escaped.  The class `[^<quoted del>]` is well-formed for every single
+  character (`\` becomes `[^\\]`, `]` becomes `[^\]]`, …; it is inserted after the `\*`
+  replacement and `ReplaceAll` does not rescan, so `*` and `%` as delimiters are harmless too).
+  Hence the compiled expression is the item sequence below: `*` ↦ `.*` (`star`), `%` ↦ `[^d]*`
+  (`pct`), any other character ↦ that literal character, and compilation cannot fail for
+  valid UTF-8 input.  With `(?s)`, `.` matches every character including newline.
+  Reference/pattern that are not valid UTF-8 are outside `List Char`; for them `Compile` fails
+  and `match` answers "no match" (handled in the driver, exercised by `match-baddelim`).
 * `FindAllString(name, 1)[0]` with a leading `^`: the match starts at 0 and is the one a
   backtracking engine finds first (leftmost-first; `x*` = prefer one more `x`).  `run` is that
   backtracking search, returning the matched prefix.
@@ -85,12 +87,15 @@ def inboxName : Name := ['I', 'N', 'B', 'O', 'X']
     their ASCII upper/lower forms, so this is ASCII case-insensitive equality. -/
 def isInbox (s : Name) : Bool := s.map Char.toUpper == inboxName
 
-/-- `canon(name, del)` -/
+/-- `canon(name, del)`: only `split[0]` is compared with INBOX (`strings.Split` with a non-empty
+    separator never returns an empty slice, so `split[0]` cannot panic) -/
 def canon (d : Char) (name : Name) : Name :=
-  join d ((splitOn d name).map fun s => if isInbox s then inboxName else s)
+  match splitOn d name with
+  | [] => []
+  | s :: ss => join d ((if isInbox s then inboxName else s) :: ss)
 
+/-- result of `match`: `(string, bool)`; no panicking path remains -/
 inductive Outcome where
-  | panic
   | ret (res : Name) (ok : Bool)
 deriving DecidableEq, Repr
 
@@ -132,7 +137,7 @@ def run (d : Char) (anchorEnd : Bool) : List Item → Name → Option Name
     match s with
     | [] => none
     | x :: xs => if x = c then (run d anchorEnd is xs).map (x :: ·) else none
-  | .star :: is, s => loop (fun x => x != '\n') (run d anchorEnd is) s
+  | .star :: is, s => loop (fun _ => true) (run d anchorEnd is) s   -- `(?s)`: `.` matches every character
   | .pct :: is, s => loop (fun x => x != d) (run d anchorEnd is) s
 
 def endsPct (pattern : Name) : Bool := pattern.getLast? == some '%'
@@ -142,11 +147,9 @@ def matchName (ref pattern : Name) (d : Char) (name : Name) : Outcome :=
   if pattern.isEmpty then .ret (matchRoot d ref) true
   else
     let cp := canon d (ref ++ pattern)
-    if d = '\\' && cp.contains '%' then .panic     -- regexp.MustCompile(`…[^\]*…`)
-    else
-      match run d (!endsPct pattern) (toItems cp) name with
-      | some r => .ret r true
-      | none => .ret [] false
+    match run d (!endsPct pattern) (toItems cp) name with
+    | some r => .ret r true
+    | none => .ret [] false
 
 /-! ### getMatches / prepareMatch -/
 
@@ -183,31 +186,27 @@ def prepareMatch (matchedName : Name) (mbox : Option MBox) (pattern : Name)
 
 /-- body of the inner loop of `getMatches` for one `superior` of `mboxName` -/
 def stepSuperior (all : List MBox) (ref pattern : Name) (d : Char) (subscribed : Bool)
-    (mboxName : Name) (acc : Option Matches) (superior : Name) : Option Matches :=
-  match acc with
-  | none => none
-  | some ms =>
-    match matchName ref pattern d superior with
-    | .panic => none
-    | .ret _ false => some ms
-    | .ret matchedName true =>
-      if (ms.lookup matchedName).isSome then some ms
-      else match prepareMatch matchedName (lookupMBox all matchedName) pattern (mboxName == matchedName) subscribed with
-        | none => some ms
-        | some (n, a) => some ((n, a) :: ms.filter (·.1 != n))
+    (mboxName : Name) (ms : Matches) (superior : Name) : Matches :=
+  match matchName ref pattern d superior with
+  | .ret _ false => ms
+  | .ret matchedName true =>
+    if (ms.lookup matchedName).isSome then ms
+    else match prepareMatch matchedName (lookupMBox all matchedName) pattern (mboxName == matchedName) subscribed with
+      | none => ms
+      | some (n, a) => (n, a) :: ms.filter (·.1 != n)
 
 /-- `getMatches` with the map iteration order made explicit (`order` = the keys in the order
-    Go happens to range over them); `none` = panic in `match`. -/
+    Go happens to range over them). -/
 def getMatchesOrd (all : List MBox) (order : List Name) (ref pattern : Name) (d : Char) (subscribed : Bool) :
-    Option Matches :=
+    Matches :=
   order.foldl (fun acc mboxName =>
     (listSuperiors d mboxName ++ [mboxName]).foldl (stepSuperior all ref pattern d subscribed mboxName) acc)
-    (some [])
+    []
 
 /-- keys of the map in first-occurrence order -/
 def keys (all : List MBox) : List Name := (all.map (·.name)).eraseDups
 
-def getMatches (all : List MBox) (ref pattern : Name) (d : Char) (subscribed : Bool) : Option Matches :=
+def getMatches (all : List MBox) (ref pattern : Name) (d : Char) (subscribed : Bool) : Matches :=
   getMatchesOrd all (keys all) ref pattern d subscribed
 
 end Gluon.Match
